@@ -3,6 +3,7 @@
 #include "seams.hpp"
 #include "ref.hpp"
 #include "registry.hpp"
+#include "world.hpp"
 #include <unistd.h>
 #include <poll.h>
 #include <signal.h>
@@ -13,12 +14,15 @@
 #include <sys/resource.h>
 #include <time.h>
 #include <errno.h>
+#ifndef SIM_TSAN
+#include <sanitizer/lsan_interface.h>
+#endif
 
 // Classify sanitizer exits; LeakSanitizer is off (the simulator's allocator does the
 // attributable leak accounting for everything libjwt and jansson allocate).
 extern "C" __attribute__((used, visibility("default"))) const char *__asan_default_options()
 {
-	return "exitcode=77:detect_leaks=0:abort_on_error=0:allocator_may_return_null=1:"
+	return "exitcode=77:detect_leaks=1:leak_check_at_exit=0:abort_on_error=0:allocator_may_return_null=1:"
 	       "detect_stack_use_after_return=0:handle_abort=1";
 }
 extern "C" __attribute__((used, visibility("default"))) const char *__ubsan_default_options()
@@ -99,6 +103,83 @@ uint64_t exec_plan(const Plan &plan, Ctx &ctx)
 	uint64_t h = ctx.log.h;
 	sim_reset_run();
 	return h;
+}
+
+// ---------------------------------------------------------------- LeakSanitizer (C06, C07, C16)
+// The simulator's allocator accounts for everything libjwt and jansson allocate; memory that
+// libjwt obtains from OpenSSL or GnuTLS (EVP_PKEY, BIO, gnutls datum...) is only visible to
+// LeakSanitizer. A recoverable leak check costs ~100 ms CPU, so workers run it once per batch of
+// runs and the master narrows a hit down by re-executing the batch's plans one per child.
+static bool leak_property(const std::string &p)
+{
+	return p == "C06" || p == "C07" || p == "C16";
+}
+
+// returns "" when nothing leaked, else the LeakSanitizer report
+static std::string lsan_check()
+{
+#ifdef SIM_TSAN
+	return "";
+#else
+	static int seq = 0;
+	mkdir("/verif/.build", 0755);
+	mkdir("/verif/.build/run", 0755);
+	std::string path = strf("/verif/.build/run/lsan-%d-%d.txt", (int)getpid(), seq++);
+	fflush(stderr);
+	int saved = dup(2);
+	int fd = open(path.c_str(), O_WRONLY | O_CREAT | O_TRUNC, 0644);
+	if (fd >= 0) {
+		dup2(fd, 2);
+		close(fd);
+	}
+	int leaks = __lsan_do_recoverable_leak_check();
+	fflush(stderr);
+	if (saved >= 0) {
+		dup2(saved, 2);
+		close(saved);
+	}
+	std::string rep;
+	if (leaks) {
+		FILE *f = fopen(path.c_str(), "rb");
+		if (f) {
+			char buf[8192];
+			size_t n;
+			while ((n = fread(buf, 1, sizeof buf, f)) > 0 && rep.size() < 20000)
+				rep.append(buf, n);
+			fclose(f);
+		}
+		if (rep.empty())
+			rep = "(leak reported, no text)";
+	}
+	unlink(path.c_str());
+	return rep;
+#endif
+}
+
+static std::string leak_site(const std::string &rep)
+{
+	// first frame inside libjwt of the first leak
+	size_t pos = 0;
+	while ((pos = rep.find(" in ", pos)) != std::string::npos) {
+		size_t s = pos + 4;
+		size_t e = rep.find_first_of(" \n", s);
+		size_t eol = rep.find('\n', s);
+		if (rep.substr(s, eol - s).find("/libjwt/") != std::string::npos)
+			return rep.substr(s, e - s);
+		pos = s;
+	}
+	return "?";
+}
+
+static void lsan_monitor(const Plan &plan, Ctx &ctx)
+{
+	if (!leak_property(plan.property))
+		return;
+	std::string rep = lsan_check();
+	if (rep.empty())
+		return;
+	ctx.violation(plan.property, "leak-lsan", leak_site(rep),
+		      "LeakSanitizer: memory obtained through libjwt was not released after every object of the run was freed\n" + rep.substr(0, 1200));
 }
 
 // ---------------------------------------------------------------- known findings
@@ -294,6 +375,7 @@ static ChildResult run_in_child(const Plan &plan, double timeout_s = 120)
 		Stats st;
 		ctx.stats = &st;
 		uint64_t h = exec_plan(plan, ctx);
+		lsan_monitor(plan, ctx);
 		child_emit(out, ctx, h);
 		sim_scratch_cleanup();
 		_exit(0);
@@ -504,6 +586,7 @@ static int cmd_replay(const std::string &path, bool verbose)
 			printf("  step %zu: %s\n", i, step_brief(plan.steps[i]).c_str());
 		fflush(stdout);
 		uint64_t h = exec_plan(plan, ctx);
+		lsan_monitor(plan, ctx);
 		for (auto &l : ctx.lines)
 			printf("  | %s\n", l.c_str());
 		printf("loghash=%016llx\n", (unsigned long long)h);
@@ -548,7 +631,9 @@ static void worker_main(const WorkerCfg &wc)
 	FILE *out = fdopen(wc.out_fd, "w");
 	Stats st;
 	uint64_t nsamples = 0;
-	for (uint64_t i = wc.first; i < wc.limit; i += wc.stride) {
+	std::vector<uint64_t> lsan_batch;
+	bool leaked = false;
+	for (uint64_t i = wc.first; i < wc.limit && !leaked; i += wc.stride) {
 		if (wall_now() > wc.deadline) {
 			fprintf(out, "T %llu\n", (unsigned long long)i);
 			break;
@@ -578,6 +663,22 @@ static void worker_main(const WorkerCfg &wc)
 				v.step);
 		fprintf(out, "E %llu %llu %d %zu\n", (unsigned long long)i, (unsigned long long)h, ctx.nontrivial ? 1 : 0,
 			plan.total_steps());
+		if (leak_property(wc.cd->property)) {
+			lsan_batch.push_back(i);
+			if (lsan_batch.size() >= 16 || i + wc.stride >= wc.limit) {
+				st.inc("lsan_batch_checks");
+				if (!lsan_check().empty()) {
+					// the master finds the leaking run(s) by re-executing the batch one plan per child
+					fprintf(out, "L");
+					for (uint64_t b : lsan_batch)
+						fprintf(out, " %llu", (unsigned long long)b);
+					fprintf(out, "\n");
+					fflush(out);
+					leaked = true;
+				}
+				lsan_batch.clear();
+			}
+		}
 		if (nsamples < 2 && ctx.nontrivial && wc.first < 4) {
 			Plan brief = plan;
 			fprintf(out, "X %s\n", esc_line(plan_dump(brief)).c_str());
@@ -604,6 +705,7 @@ struct WorkerSlot {
 	uint64_t cur = UINT64_MAX; // run in progress (after B, before E)
 	uint64_t next_first = 0;
 	bool finished = false;
+	bool leak_exit = false;
 	std::string errpath;
 };
 
@@ -636,6 +738,7 @@ static int cmd_check(const std::string &property, Tier tier, uint64_t verif_seed
 	std::vector<std::string> samples;
 	bool nondeterminism = false;
 	bool timed_out = false;
+	std::vector<uint64_t> leak_candidates;
 
 	auto spawn = [&](size_t w, uint64_t first) {
 		int pfd[2];
@@ -668,6 +771,7 @@ static int cmd_check(const std::string &property, Tier tier, uint64_t verif_seed
 		s.buf.clear();
 		s.cur = UINT64_MAX;
 		s.finished = false;
+		s.leak_exit = false;
 	};
 
 	for (size_t w = 0; w < slots.size(); w++)
@@ -737,6 +841,20 @@ static int cmd_check(const std::string &property, Tier tier, uint64_t verif_seed
 		case 'T':
 			timed_out = true;
 			break;
+		case 'L': {
+			const char *p = rest;
+			while (*p) {
+				char *end;
+				unsigned long long v = strtoull(p, &end, 10);
+				if (end == p)
+					break;
+				if (leak_candidates.size() < 96)
+					leak_candidates.push_back(v);
+				p = end;
+			}
+			s.leak_exit = true;
+			break;
+		}
 		case 'Q':
 			s.finished = true;
 			break;
@@ -777,8 +895,11 @@ static int cmd_check(const std::string &property, Tier tier, uint64_t verif_seed
 			s.fd = -1;
 			int status = 0;
 			waitpid(s.pid, &status, 0);
-			if (s.finished)
+			if (s.finished) {
+				if (s.leak_exit && s.next_first < runs && wall_now() < deadline)
+					spawn(idx[k], s.next_first);
 				continue;
+			}
 			// died in the middle of a run
 			uint64_t dead_run = s.cur;
 			std::string err = read_file(s.errpath);
@@ -811,7 +932,56 @@ static int cmd_check(const std::string &property, Tier tier, uint64_t verif_seed
 	for (auto &s : slots)
 		unlink(s.errpath.c_str());
 
+	// runs of a batch in which LeakSanitizer saw a leak: one plan per child finds the culprit(s)
+	for (uint64_t i : leak_candidates) {
+		if (found.size() >= 6)
+			break;
+		Plan plan;
+		make_plan(*cd, verif_seed, i, tier, plan);
+		ChildResult cr = run_in_child(plan);
+		total.inc("lsan_candidate_reexecutions");
+		for (auto &v : cr.viol) {
+			if (v.monitor != "leak-lsan")
+				continue;
+			const Known *k = known_match(v.property, v.monitor, v.cause);
+			if (k) {
+				known_hits[k->cause]++;
+				known_what[k->cause] = k->what;
+			} else if (!found_keys.count(v.key()) && found.size() < 6) {
+				found_keys.insert(v.key());
+				found.push_back(Found{i, v});
+			}
+		}
+	}
+
 	double t_explore = wall_now() - t0;
+
+	// cross-process determinism sample: re-execute a few violation-free runs in fresh children
+	// and compare event-log hashes (a mismatch is a harness error, never a finding)
+	{
+		std::vector<uint64_t> idxs;
+		for (auto &kv : hashes)
+			idxs.push_back(kv.first);
+		Rng pick(mix64(verif_seed, 0xde7e));
+		int want = tier == QUICK ? 12 : 48;
+		std::set<uint64_t> bad;
+		for (auto &f : found)
+			bad.insert(f.index);
+		for (int k = 0; k < want && !idxs.empty(); k++) {
+			uint64_t i = idxs[pick.below(idxs.size())];
+			if (bad.count(i))
+				continue;
+			Plan plan;
+			make_plan(*cd, verif_seed, i, tier, plan);
+			ChildResult cr = run_in_child(plan);
+			total.inc("determinism_cross_process_reexecutions");
+			if (cr.ran && cr.hash != hashes[i]) {
+				fprintf(stderr, "jwtsim: NONDETERMINISM run %llu: hash %016llx in worker, %016llx in a fresh process\n", (unsigned long long)i,
+					(unsigned long long)hashes[i], (unsigned long long)cr.hash);
+				nondeterminism = true;
+			}
+		}
+	}
 
 	// ------------------------------------------------------------ gate, shrink, report
 	int exit_code = 0;
@@ -1068,6 +1238,7 @@ int main(int argc, char **argv)
 	if (budget <= 0)
 		budget = tier == QUICK ? 150 : 1500;
 	load_known(known);
+	provider_probe();
 	if (cmd == "check")
 		return cmd_check(property, tier, seed, workers, runs, budget, evidence, hashes);
 	if (cmd == "replay")
